@@ -32,7 +32,7 @@ def same(a, b):
     if a["k"] != b["k"]:
         return False
     if a["k"] == "Index":
-        return same(a["base"], b["base"]) and hir_text(a["idx"]) == hir_text(b["idx"])
+        return same(a.get("base") or a.get("e"), b.get("base") or b.get("e")) and hir_text(a["idx"]) == hir_text(b["idx"])
     return hir_text(a) == hir_text(b)
 
 
